@@ -39,8 +39,13 @@ def coq_adapter(a):
     raise ValueError(a)
 
 
-def coq_comp(c):
-    ins = L(C("mkIn", P(N(i["src"][0]), N(i["src"][1])), L(coq_adapter(a) for a in i["chain"])) for i in c["inputs"])
+def coq_comp(c, comps=None):
+    def chain_of(i):
+        ch = list(i["chain"])
+        if comps is not None and i["src"][1] in comps[i["src"][0]].get("shared_out", []):
+            ch = ch + [["pass"]]  # the shared pass-through adapter at the source output
+        return ch
+    ins = L(C("mkIn", P(N(i["src"][0]), N(i["src"][1])), L(coq_adapter(a) for a in chain_of(i))) for i in c["inputs"])
     if c["kind"] == "T":
         kind = C("KTime", Z(c["start"]), L(Z(s) for s in c["steps"]), B(c.get("initpull", False)))
     else:
@@ -54,7 +59,7 @@ def fuel_for(case, obs):
 
 
 def coq_case(case, obs):
-    return P(L(coq_comp(c) for c in case["comps"]), Z(case["end"]), N(fuel_for(case, obs)))
+    return P(L(coq_comp(c, case["comps"]) for c in case["comps"]), Z(case["end"]), N(fuel_for(case, obs)))
 
 
 OUTCOMES = {"ok": "OOk", "CircularCoupling": "OCirc", "TimeError": "OTime", "NoDataError": "ONoData"}
@@ -186,6 +191,14 @@ def gen_dag(rng, cyclic=False, with_pull=True, shared_pull=False, late_start=Tru
                 comps[k]["inputs"].append({"src": [j, so], "chain": [["fixed", d]] + ([["pass"]] if rng.random() < 0.3 else [])})
                 chain = [a for a in chain if a[0] == "pass"]
             comps[k]["inputs"].append({"src": [j, so], "chain": chain})
+    # some outputs of time components fan out behind ONE shared pass-through adapter (one target, several consumers)
+    readers = {}
+    for c in comps:
+        for i in c["inputs"]:
+            readers[tuple(i["src"])] = readers.get(tuple(i["src"]), 0) + 1
+    for (j, o), cnt in readers.items():
+        if kinds[j] == "T" and cnt >= 2 and rng.random() < 0.5:
+            comps[j].setdefault("shared_out", []).append(o)
     maxstep = max(max(c["steps"]) for c in comps if c["kind"] == "T")
     end = t0 + rng.choice([0, 1, 2, 3, 5, 8]) * maxstep + rng.choice([0, 0, 1, unit // 2, -1])
     return {"comps": comps, "end": end}
